@@ -9,6 +9,27 @@ namespace TdModel.C11
 open TdModel
 open TdModel.C06 (slice)
 
+/-- The loop body with the regenerated conditions and slice bounds evaluated. -/
+theorem guessFrom_succ (P : Prims) (d : Bytes) (fuel i : Nat) :
+    guessFrom P d (fuel + 1) i =
+      if d.length - i < sha1Size then none
+      else if P.sha1 (slice d sha1Size (d.length - i)) == d.take sha1Size
+        then some (slice d sha1Size (d.length - i)) else guessFrom P d fuel (i + 1) := by
+  by_cases h : d.length - i < sha1Size
+  · have h' : d.length - i < 20 := h
+    simp [guessFrom, Facts.C11.guessEnd, h, h']
+  · have h' : ¬ d.length - i < 20 := h
+    simp [guessFrom, Facts.C11.guessEnd, Facts.C11.guessDataLo, Facts.C11.guessDataHi, Facts.C11.guessHashLen,
+      h', sha1Size]
+
+theorem guess_def (P : Prims) (d : Bytes) :
+    guess P d = if d.length ≤ sha1Size then none else guessFrom P d 16 0 := by
+  by_cases h : d.length ≤ sha1Size
+  · have h' : d.length ≤ 20 := h
+    simp [guess, Facts.C11.guessTooShort, h, h']
+  · have h' : ¬ d.length ≤ 20 := h
+    simp [guess, Facts.C11.guessTooShort, Facts.C11.guessTries, h, h']
+
 /-- Whatever the loop returns is `d[20 : len-j]` for some tried `j`, hashes to the prefix, and no
 earlier tried index matched. -/
 theorem guessFrom_some (P : Prims) (d x : Bytes) (fuel i : Nat)
@@ -19,7 +40,7 @@ theorem guessFrom_some (P : Prims) (d x : Bytes) (fuel i : Nat)
   induction fuel generalizing i with
   | zero => simp [guessFrom] at h
   | succ f ih =>
-    simp only [guessFrom] at h
+    rw [guessFrom_succ] at h
     split at h
     · cases h
     · rename_i hlen
@@ -44,7 +65,7 @@ theorem guessFrom_complete (P : Prims) (d : Bytes) (fuel i j : Nat) (h1 : i ≤ 
   induction fuel generalizing i with
   | zero => omega
   | succ f ih =>
-    simp only [guessFrom]
+    rw [guessFrom_succ]
     have : ¬ d.length - i < sha1Size := by omega
     simp only [this, if_false]
     split
@@ -70,8 +91,9 @@ theorem decrypt_encrypt_answer' (P : Prims) (hP : LawfulPrims P) (rnd answer key
     ∃ x k, decryptAnswerWith Facts.C11.guessResultVar P c key iv isNil = .ok (some x) ∧
       x = answer ++ (rnd.take k) ∧ k < 16 ∧ P.sha1 x = P.sha1 answer := by
   unfold encryptAnswer dataWithHash at he
-  have hk' : ¬ key.length ≠ 32 := by simp [hk]
-  simp only [hk', if_false] at he
+  have hk' : (!aesKeyOk key) = false := by simp [aesKeyOk, hk]
+  have hiv' : ¬ iv.length ≠ 32 := by simp [hiv]
+  simp only [hk', Bool.false_eq_true, if_false] at he
   have hb := paddedLen16_bounds (answer.length + sha1Size)
   generalize hn : paddedLen16 (answer.length + sha1Size) - (sha1Size + answer.length) = n at he
   have hn16 : n < 16 := by omega
@@ -81,7 +103,7 @@ theorem decrypt_encrypt_answer' (P : Prims) (hP : LawfulPrims P) (rnd answer key
     split at hawh
     · cases hawh
     · rename_i hrnd
-      simp only [Except.ok.injEq] at hawh he
+      simp only [Except.ok.injEq, hiv', if_false] at hawh he
       have hpad : (rnd.take n).length = n := by simp; omega
       have hs1 : (P.sha1 answer).length = 20 := hP.sha1_len _
       have hlen : awh.length = 20 + answer.length + n := by
@@ -93,7 +115,7 @@ theorem decrypt_encrypt_answer' (P : Prims) (hP : LawfulPrims P) (rnd answer key
       unfold decryptAnswerWith
       have hal' : ¬ (Ige.enc (P.aesEnc key) iv awh).length % 16 ≠ 0 := by rw [hcl]; simp [hal]
       have hv : (Facts.C11.guessResultVar == Facts.C11.guessResultVar) = true := by decide
-      simp only [hk', hal', if_false, hdec, hv, if_true]
+      simp only [hk', Bool.false_eq_true, hal', hiv', if_false, hdec, hv, if_true]
       -- the search on awh
       have htake : awh.take sha1Size = P.sha1 answer := by
         rw [← hawh, List.append_assoc]; exact List.take_left' hs1
@@ -124,8 +146,7 @@ theorem decrypt_encrypt_answer' (P : Prims) (hP : LawfulPrims P) (rnd answer key
         · exact absurd hmatch (hj6 n (Nat.zero_le _) h)
         · exact h
       refine ⟨x, n - j, ?_, ?_, by omega, ?_⟩
-      · unfold guess
-        rw [show Facts.C11.guessTries = 16 from rfl]
+      · rw [guess_def]
         simp [hgt, hx]
       · rw [hj4, hslice j hjn]
       · rw [hj5, htake]
